@@ -696,5 +696,252 @@ Proof.
       eexists. split; [reflexivity|]. rewrite EzB. apply eqn_back. reflexivity.
 Qed.
 
+(* ---------------- whole nodes *)
+Definition brelW (s : st) (a b : node) (Q : Prop) (o1 o2 : out) : Prop :=
+  o1 = Abort 0 \/ o2 = Abort 0 \/
+  match o1, o2 with
+  | Ok r1 s1, Ok r2 s2 =>
+    eqn s1 s2 /\ ctx3 s1 s /\
+    ((r1 = RNone /\ r2 = RNone /\ ~ Q)
+     \/ (r1 = RList [RNone] /\ r2 = RList [RNone] /\ ~ Q)
+     \/ (r1 = RList [] /\ r2 = RList [] /\ starlike a /\ starlike b /\ ~ Q)
+     \/ (exists d1 d2, r1 = RList d1 /\ r2 = RList d2 /\ accok d1 /\ accok d2 /\ d1 <> [] /\ d2 <> []))
+  | Fail s1, Fail s2 => eqxn s1 s2 /\ ctx3 s1 s
+  | Abort _, Abort _ => True
+  | _, _ => False
+  end.
+
+(* the value part of a finished non-terminal pair *)
+Lemma finish_vals i j c a b (Q : Prop) r1 r2 :
+  get_node g1 i = Some a -> get_node g2 j = Some b -> n_suppress a = n_suppress b ->
+  ((exists d, atrue g1 ne d i = true) -> Q) ->
+  ((r1 = RNone /\ r2 = RNone /\ ~ Q)
+   \/ (r1 = RList [RNone] /\ r2 = RList [RNone] /\ ~ Q)
+   \/ (r1 = RList [] /\ r2 = RList [] /\ starlike a /\ starlike b /\ ~ Q)
+   \/ (exists d1 d2, r1 = RList d1 /\ r2 = RList d2 /\ accok d1 /\ accok d2 /\ d1 <> [] /\ d2 <> [])) ->
+  vrel c (post i a r1) (post j b r2) /\ (forall d, efree g1 d i = true -> fnn (post i a r1))
+  /\ (forall d, efree g2 d j = true -> fnn (post j b r2))
+  /\ (forall d, atrue g1 ne d i = true -> truthy (post i a r1) = true).
+Proof.
+  intros G1 G2 Su HQ B.
+  assert (NA : ~ Q -> forall d, atrue g1 ne d i = true -> truthy RNone = true).
+  { intros NQ d q. exfalso. apply NQ. apply HQ. exists d. exact q. }
+  destruct B as [(E1 & E2 & NQ)|[(E1 & E2 & NQ)|[(E1 & E2 & K1 & K2 & NQ)|(d1 & d2 & E1 & E2 & A1 & A2 & N1 & N2)]]];
+    subst r1 r2.
+  - rewrite !post_none. split; [apply vrel_none|]. split; [intros; apply fnn_none|]. split; [intros; apply fnn_none|].
+    apply NA; exact NQ.
+  - rewrite !post_optnone. split; [apply vrel_none|]. split; [intros; apply fnn_none|].
+    split; [intros; apply fnn_none|]. apply NA; exact NQ.
+  - rewrite !post_nil. rewrite <- Su. destruct (n_suppress a) eqn:Sa.
+    + split; [apply vrel_none|]. split; [intros; apply fnn_none|]. split; [intros; apply fnn_none|].
+      apply NA; exact NQ.
+    + split; [apply vrel_nil|]. split; [|split].
+      * intros d Ef. rewrite (efree_starlike g1 d i a G1 K1 Ef) in Sa. discriminate.
+      * intros d Ef. rewrite (efree_starlike g2 d j b G2 K2 Ef) in Su. discriminate.
+      * intros d q. exfalso. apply NQ. apply HQ. exists d. exact q.
+  - destruct (n_suppress a) eqn:Sa.
+    + rewrite (post_suppress i a _ Sa), (post_suppress j b _ (eq_sym Su)).
+      split; [apply vrel_none|]. split; [intros; apply fnn_none|]. split; [intros; apply fnn_none|].
+      intros d q. rewrite (atrue_unsup ne g1 d i a G1 q) in Sa. discriminate.
+    + pose proof (post_list_tt i a d1 Sa A1 N1) as T1.
+      pose proof (post_list_tt j b d2 (eq_sym Su) A2 N2) as T2.
+      split; [apply vrel_tt; assumption|]. split; [intros; apply fnn_of_tt; assumption|].
+      split; [intros; apply fnn_of_tt; assumption|]. intros _ _. apply T1.
+Qed.
+
+Lemma finishW i j c a b (Q : Prop) fa fb psq1 psq2 s s' :
+  get_node g1 i = Some a -> get_node g2 j = Some b ->
+  is_match_kind (n_kind a) = false -> is_match_kind (n_kind b) = false ->
+  n_suppress a = n_suppress b -> eqn s s' ->
+  ((exists d, atrue g1 ne d i = true) -> Q) ->
+  brelW s a b Q (body (P1 fa) fa a s) (body (P2 fb) fb b s') ->
+  orelW i j c s s' (P1 (S fa) i psq1 s) (P2 (S fb) j psq2 s').
+Proof.
+  intros G1 G2 M1 M2 Su Es HQ B.
+  rewrite (parse_nonmatch g1 input orc fa i a psq1 s G1 M1), (parse_nonmatch g2 input orc fb j b psq2 s' G2 M2).
+  destruct B as [B|[B|B]]; [rewrite B; left; reflexivity | rewrite B; right; left; reflexivity |].
+  destruct (body (P1 fa) fa a s) as [r1 s1|s1|w1], (body (P2 fb) fb b s') as [r2 s2|s2|w2]; try contradiction.
+  - right; right. destruct B as (E & CT & B). split; [exact E|]. split; [exact CT|].
+    apply (finish_vals i j c a b Q r1 r2 G1 G2 Su HQ B).
+  - destruct B as (E & CT). right; right. split; [apply eqxn_set_pos_l; apply eqxn_set_pos_r; exact E|].
+    split; [eapply ctx3_trans; [apply ctx3_set_pos | exact CT]|]. split; intros _; apply pos_set_pos.
+  - right; right. exact I.
+Qed.
+
+Definition trelW (s : st) (o1 o2 : out) : Prop :=
+  match o1, o2 with
+  | Ok r1 s1, Ok r2 s2 => eqn s1 s2 /\ ctx3 s1 s /\ ((r1 = RNone /\ r2 = RNone) \/ (tt r1 /\ tt r2))
+  | Fail s1, Fail s2 => eqn s1 s2 /\ ctx3 s1 s
+  | Abort _, Abort _ => True
+  | _, _ => False
+  end.
+
+Lemma nm_raise_eq p s : nm_raise p s = Fail (reg_fail p s).
+Proof. reflexivity. Qed.
+
+Lemma term_relW k i j psq1 psq2 s1 s2 : eqn s1 s2 ->
+  trelW s1 (term_parse input orc i k psq1 s1) (term_parse input orc j k psq2 s2).
+Proof.
+  intro E. destruct k; simpl; try exact I; rewrite <- (eqn_pos _ _ E).
+  - destruct (Nat.eqb (length input) (pos s1)); simpl.
+    + split; [exact E|]. split; [apply ctx3_refl | right; split; apply tt_T].
+    + split; [apply eqn_reg_fail; exact E | apply ctx3_reg_fail].
+  - destruct (match oid with Some o => match orc o (pos s1) with Some _ => true | None => false end
+                           | None => is_prefix s (skipn (pos s1) input) end); simpl.
+    + split; [apply eqn_set_pos; exact E|]. split; [apply ctx3_set_pos | right; split; apply tt_T].
+    + split; [apply eqn_reg_fail; exact E | apply ctx3_reg_fail].
+  - destruct (orc oid (pos s1)) as [len|]; simpl.
+    + destruct (Nat.eqb len 0); simpl.
+      * split; [exact E|]. split; [apply ctx3_refl | left; split; reflexivity].
+      * split; [apply eqn_set_pos; exact E|]. split; [apply ctx3_set_pos | right; split; apply tt_T].
+    + split; [apply eqn_reg_fail; exact E | apply ctx3_reg_fail].
+Qed.
+
+Lemma step_termW i j c a b fa fb psq1 psq2 s s' :
+  fa + fb <= n -> get_node g1 i = Some a -> get_node g2 j = Some b ->
+  is_match_kind (n_kind a) = true -> n_kind a = n_kind b -> n_suppress a = n_suppress b ->
+  eqn s s' -> skipws s = true ->
+  orelW i j c s s' (P1 (S fa) i psq1 s) (P2 (S fb) j psq2 s').
+Proof.
+  intros L G1 G2 M K Su Es Ks.
+  assert (M2 : is_match_kind (n_kind b) = true) by (rewrite <- K; exact M).
+  rewrite (parse_match g1 input orc fa i a psq1 s G1 M), (parse_match g2 input orc fb j b psq2 s' G2 M2).
+  pose proof (match_pre_simW fa fb fa fb s s' L Es Ks) as Z.
+  destruct Z as [Z|[Z|Z]]; [rewrite Z; left; reflexivity | rewrite Z; right; left; reflexivity |].
+  destruct (match_pre g1 input (P1 fa) fa s) as [r1 s1|s1|w1], (match_pre g2 input (P2 fb) fb s') as [r2 s2|s2|w2];
+    try contradiction.
+  - destruct Z as (E & CT). rewrite <- K. pose proof (term_relW (n_kind a) i j psq1 psq2 s1 s2 E) as T.
+    pose proof (term_atrue g1 ne input orc Hne i a psq1 s1 G1) as TA.
+    destruct (term_parse input orc i (n_kind a) psq1 s1) as [v1 t1|t1|x1],
+             (term_parse input orc j (n_kind a) psq2 s2) as [v2 t2|t2|x2]; try contradiction.
+    + right; right. destruct T as (E2 & CT2 & T). split; [exact E2|]. split; [eapply ctx3_trans; eassumption|].
+      rewrite <- Su. destruct (n_suppress a) eqn:Sa.
+      * split; [apply vrel_none|]. split; [intros; apply fnn_none|]. split; [intros; apply fnn_none|].
+        intros d q. rewrite (atrue_unsup ne g1 d i a G1 q) in Sa. discriminate.
+      * destruct T as [[E1 E3]|[T1 T2]].
+        -- subst. split; [apply vrel_none|]. split; [intros; apply fnn_none|]. split; [intros; apply fnn_none|].
+           intros d q. apply (TA d RNone t1 q eq_refl).
+        -- split; [apply vrel_tt; assumption|]. split; [intros; apply fnn_of_tt; assumption|].
+           split; [intros; apply fnn_of_tt; assumption|]. intros _ _. apply T1.
+    + right; right. destruct T as (E2 & CT2). split; [apply eqn_eqxn; exact E2|].
+      split; [eapply ctx3_trans; eassumption|].
+      unfold nonterminal. rewrite G1, G2, M, M2. split; discriminate.
+    + right; right. exact I.
+  - right; right. exact I.
+Qed.
+
+(* ---------------- an ordered choice of two regex matches against one regex match (weak mode) *)
+Lemma regex_oid_node g k o : regex_oid g k = Some o ->
+  exists nd, get_node g k = Some nd /\ n_kind nd = KRegex o /\ n_suppress nd = false.
+Proof.
+  unfold regex_oid. destruct (get_node g k) as [nd|]; [|discriminate].
+  destruct (n_kind nd) eqn:K; try discriminate.
+  destruct (plain nd); simpl; [|discriminate]. destruct (n_suppress nd) eqn:Su; simpl; [discriminate|].
+  intro H. inversion H; subst. exists nd. repeat split; assumption.
+Qed.
+
+Lemma eqxn_reg_fail_l p s1 s2 : eqxn s1 s2 -> eqxn (reg_fail p s1) s2.
+Proof.
+  intro H. destruct s1, s2. unfold eqxn, reg_fail, set_nm, set_pos in *. simpl in *. inversion H; subst.
+  destruct nm; simpl; [|reflexivity]. destruct in_cmt0; [reflexivity|]. destruct (Nat.ltb n0 p); reflexivity.
+Qed.
+
+Lemma in_ne o : existsb (Nat.eqb o) ne = true -> In o ne.
+Proof. intro H. apply existsb_exists in H as [x [I E]]. apply Nat.eqb_eq in E. subst. exact I. Qed.
+
+Lemma in_alts_In o1 o2 o3 : in_alts alts o1 o2 o3 = true -> In (o1, o2, o3) alts.
+Proof.
+  unfold in_alts. rewrite existsb_exists. intros [[[a b] c] [I E]].
+  apply andb_true_iff in E as [E E3]. apply andb_true_iff in E as [E1 E2].
+  apply Nat.eqb_eq in E1. apply Nat.eqb_eq in E2. apply Nat.eqb_eq in E3. subst. exact I.
+Qed.
+
+Lemma term_regex nid o psq s :
+  term_parse input orc nid (KRegex o) psq s =
+  match orc o (pos s) with
+  | Some len => if Nat.eqb len 0 then Ok RNone s else Ok (RTree (T nid (pos s) len false)) (set_pos (pos s + len) s)
+  | None => Fail (reg_fail (pos s) s)
+  end.
+Proof. reflexivity. Qed.
+
+(* the outcome of the pair once a regex matched with a non-zero length at related states *)
+Lemma regex_hit i j c a b k len t1 t2 s s' psq :
+  get_node g1 i = Some a -> get_node g2 j = Some b -> n_suppress a = n_suppress b -> n_kind a = KChoice ->
+  eqn t1 t2 -> ctx3 t1 s -> Nat.eqb len 0 = false ->
+  orelW i j c s s'
+    (Ok (post i a (RList [RTree (T k (pos t1) len false)])) (set_pos (pos t1 + len) t1))
+    (Ok (if n_suppress b then RNone else RTree (T j (pos t1) len psq)) (set_pos (pos t1 + len) t2)).
+Proof.
+  intros G1 G2 Su Ka E CT NZ. right; right. split; [apply eqn_set_pos; exact E|].
+  split; [eapply ctx3_trans; [apply ctx3_set_pos | exact CT]|].
+  rewrite <- Su. destruct (n_suppress a) eqn:Sa.
+  - rewrite (post_suppress i a _ Sa). split; [apply vrel_none|]. split; [intros; apply fnn_none|].
+    split; [intros; apply fnn_none|]. intros d q. rewrite (atrue_unsup ne g1 d i a G1 q) in Sa. discriminate.
+  - assert (T1 : tt (post i a (RList [RTree (T k (pos t1) len false)]))).
+    { apply post_list_tt; [exact Sa | apply accok1; apply tt_T | discriminate]. }
+    split; [apply vrel_tt; [exact T1 | apply tt_T]|]. split; [intros; apply fnn_of_tt; exact T1|].
+    split; [intros; apply fnn_of_tt; apply tt_T|]. intros _ _. apply T1.
+Qed.
+
+Lemma step_choice_regex i j c a b o3 fa fb psq1 psq2 s s' :
+  fa + fb <= n -> get_node g1 i = Some a -> get_node g2 j = Some b ->
+  n_kind a = KChoice -> n_kind b = KRegex o3 -> plain a = true -> n_suppress a = n_suppress b ->
+  choice_regex g1 ne alts a o3 = true -> eqn s s' -> skipws s = true ->
+  orelW i j c s s' (P1 (S fa) i psq1 s) (P2 (S fb) j psq2 s').
+Proof.
+  intros L G1 G2 Ka Kb Pa Su CR Es Ks. unfold choice_regex in CR.
+  destruct (n_kids a) as [|k1 [|k2 [|? ?]]] eqn:Kia; try discriminate.
+  destruct (regex_oid g1 k1) as [o1|] eqn:R1; [|discriminate]. destruct (regex_oid g1 k2) as [o2|] eqn:R2; [|discriminate].
+  apply andb_true_iff in CR as [CR NE2]. apply andb_true_iff in CR as [AL NE1].
+  apply in_alts_In in AL. apply in_ne in NE1. apply in_ne in NE2.
+  destruct (regex_oid_node g1 k1 o1 R1) as (n1 & Gk1 & Kk1 & Sk1).
+  destruct (regex_oid_node g1 k2 o2 R2) as (n2 & Gk2 & Kk2 & Sk2).
+  assert (Ma : is_match_kind (n_kind a) = false) by (rewrite Ka; reflexivity).
+  assert (Mb : is_match_kind (n_kind b) = true) by (rewrite Kb; reflexivity).
+  assert (M1 : is_match_kind (n_kind n1) = true) by (rewrite Kk1; reflexivity).
+  assert (M2 : is_match_kind (n_kind n2) = true) by (rewrite Kk2; reflexivity).
+  rewrite (parse_nonmatch g1 input orc fa i a psq1 s G1 Ma), (body_choice _ _ _ _ Ka Pa), Kia.
+  rewrite (parse_match g2 input orc fb j b psq2 s' G2 Mb), Kb.
+  cbn [choice_loop]. destruct fa as [|fa]; [left; reflexivity|].
+  rewrite (parse_match g1 input orc fa k1 n1 false s Gk1 M1), Kk1, Sk1.
+  assert (L' : fa + fb <= n) by lia.
+  pose proof (match_pre_simW fa fb fa fb s s' L' Es Ks) as Z.
+  destruct (match_pre g1 input (P1 fa) fa s) as [r1 sA|sA|w1] eqn:MP1.
+  2:{ destruct Z as [Z|[Z|Z]]; [discriminate | rewrite Z; right; left; reflexivity |].
+      destruct (match_pre g2 input (P2 fb) fb s'); contradiction. }
+  2:{ destruct Z as [Z|[Z|Z]]; [inversion Z; subst; left; reflexivity | rewrite Z; right; left; reflexivity |].
+      destruct (match_pre g2 input (P2 fb) fb s') as [? ?|?|?]; try contradiction. right; right. exact I. }
+  destruct Z as [Z|[Z|Z]]; [discriminate | rewrite Z; right; left; reflexivity |].
+  destruct (match_pre g2 input (P2 fb) fb s') as [r2 sA'|sA'|w2]; try contradiction.
+  destruct Z as (EA & CTA). rewrite !term_regex. rewrite <- (eqn_pos _ _ EA).
+  rewrite (Halt o1 o2 o3 (pos sA) AL).
+  destruct (orc o1 (pos sA)) as [len|] eqn:O1.
+  - destruct (Nat.eqb len 0) eqn:NZ.
+    { apply Nat.eqb_eq in NZ. subst len. exfalso. apply (Hne o1 (pos sA) NE1 O1). }
+    cbn [is_none]. apply (regex_hit i j c a b k1 len sA sA' s s' false G1 G2 Su Ka EA CTA NZ).
+  - (* the first alternative fails; the second one re-runs Match.parse's skipping *)
+    rewrite (parse_match g1 input orc fa k2 n2 false _ Gk2 M2), Kk2, Sk2.
+    destruct (match_pre_again g1 (P1 fa) fa s r1 sA (pos sA) Ks CTA MP1) as (sC & MP2 & EC).
+    rewrite MP2. rewrite term_regex. rewrite (eqn_pos _ _ EC).
+    destruct (orc o2 (pos sA)) as [len|] eqn:O2.
+    + destruct (Nat.eqb len 0) eqn:NZ.
+      { apply Nat.eqb_eq in NZ. subst len. exfalso. apply (Hne o2 (pos sA) NE2 O2). }
+      cbn [is_none]. rewrite <- (eqn_pos _ _ EC).
+      apply (regex_hit i j c a b k2 len sC sA' s s' false G1 G2 Su Ka).
+      * eapply eqn_trans; eassumption.
+      * eapply ctx3_trans; [apply eqn_ctx; exact EC | exact CTA].
+      * exact NZ.
+    + cbn [choice_loop is_none]. right; right.
+      split.
+      * apply eqxn_set_pos_l. apply eqxn_reg_fail_l. apply eqxn_set_pos_l. apply eqxn_reg_fail_l.
+        apply eqn_eqxn. apply eqn_sym. apply eqn_sym. eapply eqn_trans; [exact EC|].
+        eapply eqn_trans; [exact EA|]. apply eqn_sym. apply reg_fail_eqn.
+      * split.
+        -- eapply ctx3_trans; [apply ctx3_set_pos|]. eapply ctx3_trans; [apply ctx3_reg_fail|].
+           eapply ctx3_trans; [apply ctx3_set_pos|]. eapply ctx3_trans; [apply ctx3_reg_fail|].
+           eapply ctx3_trans; [apply eqn_ctx; exact EC | exact CTA].
+        -- split; [intros _; apply pos_set_pos|]. unfold nonterminal. rewrite G2, Mb. discriminate.
+Qed.
+
 End StepW.
 End SoundW.
